@@ -6,9 +6,11 @@
 (*                                                                                                        *)
 (* record:  id, docs (initial snapshot of every source object, JSON form of a value),                      *)
 (*          optkey (key id of the `options` map inside the observed section, 0 = not observed),            *)
-(*          grp = [defs, std, l2k]  (language-standard groups: key id of the `defaults` map, of the `std`   *)
-(*                option, and the pairs <<leaf id, key id>> of strings that occur both as value and key;    *)
-(*                defs = 0: the language has no groups)                                                     *)
+(*          grp = [defs, std, l2k, table]  (language-standard groups: key id of the `defaults` map, of the   *)
+(*                `std` option, the pairs <<leaf id, key id>> of strings that occur both as value and key,  *)
+(*                and the DOCUMENTED groups: << <<leaf id of the shorthand, << <<option key id, <<allowed     *)
+(*                leaf ids>> >>, ... >> >>, ... >> - a fixed table of the harness taken from                 *)
+(*                docs/languages.rst, not from the tree under test; std = 0: the language has no groups)     *)
 (*          steps: sequence of [op, b, d, c, key, blind, cfg, docs, rep]                                   *)
 (*             blind = 1: the builder's configuration cannot be observed at this step (inside one nnvg run)  *)
 (*             op = "new"    builder b exists; d = 0: its configuration is the built-in one as observed,     *)
@@ -51,16 +53,32 @@ Mentions(v, optkey) ==
     IF optkey # 0 /\ IsMap(v) /\ optkey \in DOMAIN v.m /\ IsMap(v.m[optkey])
     THEN {key \in DOMAIN v.m[optkey].m : v.m[optkey].m[key].k # "d"} ELSE {}
 
-(* the documented block of the selected language standard, or <<>> *)
-Block(cfg, r) ==
+(* what a document says about the groups themselves: key ids it mentions inside `defaults`, 0 if it replaces   *)
+(* `defaults` by something that is not a map                                                                 *)
+DefMentions(v, defs) ==
+    IF defs # 0 /\ IsMap(v) /\ defs \in DOMAIN v.m THEN (IF IsMap(v.m[defs]) THEN DOMAIN v.m[defs].m ELSE {0}) ELSE {}
+
+(* the block of options the selected language standard stands for, as key -> expectation, or <<>>:             *)
+(*  - a documented shorthand: the documented block (never the tree's own `defaults`), unless a user source      *)
+(*    redefines that group (dm), then nothing is fixed;                                                       *)
+(*  - a group the user defines in `defaults` of the merged configuration: that block.                          *)
+Block(cfg, r, dm) ==
     LET g == r.grp
-        ok == /\ g.defs # 0 /\ r.optkey \in DOMAIN cfg /\ g.defs \in DOMAIN cfg /\ IsMap(cfg[r.optkey]) /\ IsMap(cfg[g.defs])
-              /\ g.std \in DOMAIN cfg[r.optkey].m /\ ~IsMap(cfg[r.optkey].m[g.std]) /\ cfg[r.optkey].m[g.std].k # "any"
+        ok == /\ g.std # 0 /\ r.optkey \in DOMAIN cfg /\ IsMap(cfg[r.optkey])
+              /\ g.std \in DOMAIN cfg[r.optkey].m /\ cfg[r.optkey].m[g.std].k \in {"x", "d"}
         leaf == cfg[r.optkey].m[g.std].v
-        keys == {g.l2k[i][2] : i \in {j \in DOMAIN g.l2k : g.l2k[j][1] = leaf}}
+        names == {g.l2k[i][2] : i \in {j \in DOMAIN g.l2k : g.l2k[j][1] = leaf}}
+        doc == {i \in DOMAIN g.table : g.table[i][1] = leaf}
+        userdef == g.defs # 0 /\ g.defs \in DOMAIN cfg /\ IsMap(cfg[g.defs])
+                   /\ \E key \in names : key \in DOMAIN cfg[g.defs].m /\ IsMap(cfg[g.defs].m[key])
     IN IF ~ok THEN <<>>
-       ELSE IF \E key \in keys : key \in DOMAIN cfg[g.defs].m /\ IsMap(cfg[g.defs].m[key])
-       THEN cfg[g.defs].m[CHOOSE key \in keys : key \in DOMAIN cfg[g.defs].m /\ IsMap(cfg[g.defs].m[key])].m
+       ELSE IF doc # {} THEN
+            LET t == g.table[CHOOSE i \in doc : TRUE][2]
+                redefined == 0 \in dm \/ names \cap dm # {}
+            IN [key \in {t[i][1] : i \in DOMAIN t} |->
+                   IF redefined THEN AnyV ELSE OneOf(t[CHOOSE i \in DOMAIN t : t[i][1] = key][2])]
+       ELSE IF userdef
+       THEN cfg[g.defs].m[CHOOSE key \in names : key \in DOMAIN cfg[g.defs].m /\ IsMap(cfg[g.defs].m[key])].m
        ELSE <<>>
 
 Code(clause) == CASE clause = "merge.doc_unmodified" -> "unmod" [] clause = "merge.ctx_stable" -> "stable"
@@ -76,7 +94,7 @@ ClauseOf(srcs, p, i) ==
     ELSE LET c == ClauseAt(srcs[i], p) IN IF c = "merge.deep_union" THEN ClauseOf(srcs, p, i - 1) ELSE c
 MergeClauses(e, o, srcs) == {ClauseOf(srcs, p, Len(srcs)) : p \in Diff(e, o, FALSE, <<>>)}
 
-St0(r) == [pcfg |-> <<>>, ppend |-> <<>>, made |-> {}, loose |-> {}, ment |-> <<>>, unseen |-> <<>>,
+St0(r) == [pcfg |-> <<>>, ppend |-> <<>>, made |-> {}, loose |-> {}, ment |-> <<>>, rank |-> <<>>, dment |-> <<>>, unseen |-> <<>>,
            ocfg |-> <<>>, odocs |-> [d \in DOMAIN r.docs |-> J2V(r.docs[d])], orep |-> <<>>, frozen |-> <<>>, owner |-> <<>>,
            errs |-> {}, first |-> 0]
 
@@ -98,18 +116,23 @@ Step(st, r, i) ==
         merged == IF s.op = "new" THEN (IF s.d = 0 THEN (IF IsMap(ocfg[b]) THEN ocfg[b].m ELSE <<>>) ELSE Merge(<<>>, src.m))
                   ELSE IF s.op \in {"upd", "create"} /\ known THEN Merge(st.pcfg[b], src.m)
                   ELSE IF known THEN st.pcfg[b] ELSE <<>>
-        ment == IF s.op = "new" THEN {}
-                ELSE IF ~known THEN {}
-                ELSE IF s.op = "upd" THEN st.ment[b] \cup Mentions(cur[s.d], r.optkey)
-                ELSE IF s.op = "set" /\ s.key = r.optkey /\ IsMap(cur[s.d])
-                     THEN st.ment[b] \cup {key \in DOMAIN cur[s.d].m : cur[s.d].m[key].k # "d"}
-                ELSE st.ment[b]
-        block == IF s.op = "create" THEN Block(merged, r) ELSE <<>>
+        (* precedence bookkeeping: rank = number of sources merged into b so far (0 = built-in); ment = option   *)
+        (* key -> rank of the latest source that gives it explicitly; dment = what user sources say about groups *)
+        merging == s.op \in {"upd", "create"} /\ known
+        rank == IF merging THEN st.rank[b] + 1 ELSE IF known /\ s.op # "new" THEN st.rank[b] ELSE 0
+        named == IF merging THEN Mentions(src, r.optkey) ELSE {}
+        ment == IF s.op = "new" \/ ~known THEN <<>>
+                ELSE [key \in (DOMAIN st.ment[b]) \cup named |-> IF key \in named THEN rank ELSE st.ment[b][key]]
+        dment == IF s.op = "new" \/ ~known THEN {}
+                 ELSE IF merging THEN st.dment[b] \cup DefMentions(src, r.grp.defs) ELSE st.dment[b]
+        rankstd == IF r.grp.std \in DOMAIN ment THEN ment[r.grp.std] ELSE 0
+        protected == {key \in DOMAIN ment : ment[key] >= rankstd}
+        block == IF s.op = "create" THEN Block(merged, r, dment) ELSE <<>>
         grouped == block # <<>>
         expCfg == IF grouped THEN Put(merged, r.optkey, M(GroupLoose(merged[r.optkey].m, block))) ELSE merged
         expOpts == IF r.optkey = 0 THEN AnyV
                    ELSE IF r.optkey \in DOMAIN merged /\ IsMap(merged[r.optkey])
-                        THEN (IF grouped THEN M(GroupApply(merged[r.optkey].m, block, ment)) ELSE merged[r.optkey])
+                        THEN (IF grouped THEN M(GroupApply(merged[r.optkey].m, block, protected)) ELSE merged[r.optkey])
                    ELSE AnyV
         checked == s.op \in {"new", "upd", "create"} /\ ~nowLoose /\ ~(s.op = "new" /\ s.d = 0) /\ s.blind = 0
         srcs == (IF known /\ b \in DOMAIN st.unseen THEN st.unseen[b] ELSE <<>>) \o <<src>>
@@ -139,6 +162,8 @@ Step(st, r, i) ==
         made |-> IF s.op = "create" THEN st.made \cup {b} ELSE st.made,
         loose |-> loose,
         ment |-> IF s.op = "obs" THEN st.ment ELSE Put(st.ment, b, ment),
+        rank |-> IF s.op = "obs" THEN st.rank ELSE Put(st.rank, b, rank),
+        dment |-> IF s.op = "obs" THEN st.dment ELSE Put(st.dment, b, dment),
         unseen |-> IF s.op = "obs" THEN st.unseen
                    ELSE IF s.op \in {"upd", "create"} /\ ~checked /\ ~nowLoose THEN Put(st.unseen, b, SubSeq(srcs, 1, Len(srcs)))
                    ELSE IF s.op \in {"new", "upd", "create"} THEN Put(st.unseen, b, <<>>)
